@@ -89,83 +89,7 @@ Proof.
 Qed.
 End X.
 
-(* ---- TrimSpace gives back a URL followed by white space ---------------------------- *)
-Definition plain_byte (a : ascii) : bool := (nb a <? 128)%N && negb (ascii_ws a).
-
-Lemma plain_not_ws2 a b : plain_byte b = true -> ws2 a b = false.
-Proof.
-  unfold plain_byte, ws2. intros H. apply andb_true_iff in H. destruct H as [H _].
-  apply N.ltb_lt in H.
-  destruct (nb b =? 133)%N eqn:E1; [apply N.eqb_eq in E1; lia|].
-  destruct (nb b =? 160)%N eqn:E2; [apply N.eqb_eq in E2; lia|].
-  rewrite andb_false_r. reflexivity.
-Qed.
-
-Lemma plain_not_ws3 a b c : plain_byte c = true -> ws3 a b c = false.
-Proof.
-  unfold plain_byte, ws3. intros H. apply andb_true_iff in H. destruct H as [H _].
-  apply N.ltb_lt in H.
-  assert (E0 : (nb c =? 128)%N = false) by (apply N.eqb_neq; lia).
-  assert (E1 : (128 <=? nb c)%N = false) by (apply N.leb_gt; lia).
-  assert (E2 : (nb c =? 168)%N = false) by (apply N.eqb_neq; lia).
-  assert (E3 : (nb c =? 169)%N = false) by (apply N.eqb_neq; lia).
-  assert (E4 : (nb c =? 175)%N = false) by (apply N.eqb_neq; lia).
-  assert (E5 : (nb c =? 159)%N = false) by (apply N.eqb_neq; lia).
-  rewrite E0, E1, E2, E3, E4, E5. simpl. rewrite !andb_false_r. reflexivity.
-Qed.
-
-Lemma rtrim_rev_ws ws l : forallb ascii_ws ws = true -> rtrim_rev (ws ++ l) = rtrim_rev l.
-Proof.
-  induction ws as [|a r IH]; simpl; [reflexivity|]. intros H. apply andb_true_iff in H.
-  destruct H as [Ha Hr]. rewrite Ha. apply IH. assumption.
-Qed.
-
-Lemma rtrim_rev_plain c l : plain_byte c = true -> rtrim_rev (c :: l) = c :: l.
-Proof.
-  intros Hc. assert (Hw : ascii_ws c = false).
-  { unfold plain_byte in Hc. apply andb_true_iff in Hc. destruct Hc as [_ Hc].
-    destruct (ascii_ws c); [discriminate|reflexivity]. }
-  cbn [rtrim_rev]. rewrite Hw. destruct l as [|b l]; [reflexivity|].
-  rewrite plain_not_ws2 by assumption. destruct l as [|a l]; [reflexivity|].
-  rewrite plain_not_ws3 by assumption. reflexivity.
-Qed.
-
-Lemma ltrim_plain c l : plain_byte c = true -> ltrim (c :: l) = c :: l.
-Proof.
-  intros Hc. assert (Hw : ascii_ws c = false).
-  { unfold plain_byte in Hc. apply andb_true_iff in Hc. destruct Hc as [_ Hc].
-    destruct (ascii_ws c); [discriminate|reflexivity]. }
-  assert (Hlt : (nb c < 128)%N).
-  { unfold plain_byte in Hc. apply andb_true_iff in Hc. destruct Hc as [Hc _]. apply N.ltb_lt. assumption. }
-  cbn [ltrim]. rewrite Hw. destruct l as [|b l]; [reflexivity|].
-  assert (H2 : ws2 c b = false).
-  { unfold ws2. destruct (nb c =? 194)%N eqn:E; [apply N.eqb_eq in E; lia|reflexivity]. }
-  rewrite H2. destruct l as [|a l]; [reflexivity|].
-  assert (H3 : ws3 c b a = false).
-  { unfold ws3.
-    destruct (nb c =? 225)%N eqn:E1; [apply N.eqb_eq in E1; lia|].
-    destruct (nb c =? 226)%N eqn:E2; [apply N.eqb_eq in E2; lia|].
-    destruct (nb c =? 227)%N eqn:E3; [apply N.eqb_eq in E3; lia|]. reflexivity. }
-  rewrite H3. reflexivity.
-Qed.
-
-(* a text node made of a URL that begins and ends with plain (ASCII, non-blank) bytes, followed by
-   any ASCII white space - a pretty-printed <loc> - is trimmed back to the URL *)
-Theorem trim_space_url_lemma c0 mid c1 ws :
-  plain_byte c0 = true -> plain_byte c1 = true -> forallb ascii_ws ws = true ->
-  trim_space (c0 :: mid ++ c1 :: ws) = c0 :: mid ++ [c1].
-Proof.
-  intros H0 H1 Hws. unfold trim_space. rewrite ltrim_plain by assumption.
-  replace (c0 :: mid ++ c1 :: ws) with ((c0 :: mid ++ [c1]) ++ ws)
-    by (simpl; rewrite <- app_assoc; reflexivity).
-  rewrite rev_app_distr. rewrite rtrim_rev_ws.
-  - replace (rev (c0 :: mid ++ [c1])) with (c1 :: rev (c0 :: mid)).
-    + rewrite rtrim_rev_plain by assumption.
-      change (c1 :: rev (c0 :: mid)) with (rev [c1] ++ rev (c0 :: mid)).
-      rewrite <- rev_app_distr, rev_involutive. reflexivity.
-    + change (c0 :: mid ++ [c1]) with ((c0 :: mid) ++ [c1]). rewrite rev_app_distr. reflexivity.
-  - rewrite forallb_forall in *. intros x Hx. apply Hws. apply in_rev. assumption.
-Qed.
+(* the lemmas about strings.TrimSpace ([trim_space_url_lemma], ...) are in Ext/FileExtProofs.v *)
 
 (* ---- xml_all_found ----------------------------------------------------------------- *)
 (* every attribute value that starts with "http", every character-data node that starts with
